@@ -1,6 +1,6 @@
 """Per-property configuration: streams, observation alphabets, non-triviality rules, monitors."""
 import os
-from .core import Stream, sections, fdec
+from .core import Stream, sections, fdec, FLOAT_TOK
 
 TRUSTED_COMMON = [
     "Lean 4.33 kernel; axioms of each theorem audited on every run to be within {propext, Classical.choice, Quot.sound}",
@@ -29,6 +29,27 @@ class Prop:
 
     def monitor(self, stream, annot, impl):
         return []
+
+    def in_domain(self, stream, ops):
+        """does this case lie inside what the property quantifies over? (only asked for determined properties, to decide
+        whether a model-vs-implementation difference is a concrete failing input or only a broken correspondence)"""
+        return True
+
+
+def uist_case_in_domain(ops):
+    """C02's domain: finite positive limit / stop prices and quantities; a priced type without a price (possible only
+    through deserialisation) is outside it"""
+    for op in ops:
+        t = op.split(" A ")[0].split()
+        if t and t[0] == "I":
+            typ, sh, px = int(t[1]), fdec(t[3]), t[4]
+            if not (0 < sh < float("inf")):
+                return False
+            if typ >= 2 and (px == "-" or not (0 < fdec(px) < float("inf"))):
+                return False
+            if typ < 2 and px != "-":
+                return False
+    return True
 
 
 # ---------------------------------------------------------------- helpers on the uist protocol
@@ -93,6 +114,10 @@ def sort_fills(secs):
 
 class C02(Prop):
     id = "C02"
+
+    def in_domain(self, stream, ops):
+        return uist_case_in_domain(ops)
+
     streams = [Stream("uist", "mix", quick=400, thorough=40000, tags={"F", "B", "REJECT-ADMISSION", "PANIC"}, canon=sort_fills),
                Stream("uist", "dup", quick=300, thorough=20000, tags={"F", "B", "REJECT-ADMISSION", "PANIC"}, canon=sort_fills)]
     determined = True
@@ -126,6 +151,8 @@ class C02(Prop):
     def monitor(self, stream, annot, impl):
         """C02 evaluated directly on the implementation's trace: from the book before the tick (snapshot
         of the previous step + orders admitted) and the tick's quotes, decide per resting order."""
+        if not uist_case_in_domain(annot):
+            return      # the property says nothing about a limit / stop order without a price
         book = []
         for k, (op, out) in enumerate(zip(annot, impl)):
             s = sections(out)
@@ -688,8 +715,24 @@ def srv_wellformed(annot):
     return all(v == sorted(v) for v in seen.values())
 
 
+def srv_case_in_domain(ops):
+    """C07's domain: datasets d1 < ... < dN with N >= 1 (a registered dataset without any quote has N = 0)"""
+    declared, quoted = set(), set()
+    for op in ops:
+        t = op.split()
+        if t and t[0] == "DATA":
+            declared.add(t[1])
+        if t and t[0] == "Q" and int(t[3]) > 0:
+            quoted.add(t[1])
+    return srv_wellformed(ops) and declared <= quoted
+
+
 class C07(Prop):
     id = "C07"
+
+    def in_domain(self, stream, ops):
+        return srv_case_in_domain(ops)
+
     streams = srv_streams("clock", {"R", "H", "Q", "W", "C", "F"})
     determined = True
     determined_why = ("for a dataset d1<...<dN the property fixes the clock position and date after every request, the has_next "
@@ -1916,9 +1959,11 @@ class C20(Prop):
     id = "C20"
     streams = [Stream(f"http-{k}", "http-mix", quick=250, thorough=20000, rtol=1e-12,
                       tags={"ST", "J", "NB", "PANIC", "REJECT-ADMISSION", "ok", "reset", "bad-op"}) for k in ("uist", "jura")]
-    determined = True
-    determined_why = ("the property fixes every HTTP response: status 400 exactly where the in-process call reports an unknown backtest or "
-                      "dataset, otherwise the JSON encoding of the in-process result")
+    # not `determined`: the property fixes the HTTP result *relative to the in-process call*, not the wire format nor the
+    # in-process semantics; a difference from the Lean wire-format model can come from either (a renamed JSON key, a
+    # changed dataset semantics) with the transport still faithful, so it breaks the correspondence without being a
+    # failing input by itself. The implementation-side comparisons (EQ, typed `{:?}` of ticks, SEQ, CL, TC) are the oracle.
+    determined = False
     rule = ("random request sequences over all routes of both services (init, fetch_quotes, insert_order, delete_order, tick, info, "
             "now) through an in-memory actix test service, next to a twin AppState driven in-process with the same calls, and next to "
             "a third AppState behind a real HttpServer on 127.0.0.1 called through the repository's own reqwest clients "
